@@ -15,13 +15,19 @@ Proved (for all trees / worlds, no size bound):
 * the primitive edits keep `Items.wf`: `C03_insert_keeps_wf`, `C03_remove_keeps_wf`, `C03_modify_keeps_wf`;
 * navigation from the root (`chain`, used for `parent`, `path`, `position`, `model`) sees exactly the
   structural ancestors and ends at the requested node: `C03_navigation_agrees`, `C03_chain_ends_at_target`;
-* operation level (`World.wf` preserved): text items, comments (`C03_op_*`).
-Partial: `World.wf` preservation is proved for these operations only; for the others (create, named,
-remove, rename, move, copy, attributes, references) and for the iterators and stale handles the claim
-rests on the correspondence run (dump after every request includes every parent field) and on the
-direct oracle on the real library (parent / position / iterators / stale-handle probes after every request).
+* operation level: every core operation keeps `World.wf` (`Lemmas/WfOps.lean`), and therefore —
+  `C03_every_reachable_state_is_a_tree` — in EVERY state reachable from the empty world by ANY history of the core operations
+  (new model, create_file, create / create_named (with position), remove, set / remove character data, set / set-string /
+  remove attribute, comment, insert / remove text item, add_to_file, remove_from_file, remove_file, set_version; the driver
+  answers these requests with the very step function the theorem is about, `Model/Step.lean`) the parent fields agree with
+  the structure in every model.
+Partial: rename, move, copy, sort, set_reference_target and loading are not in the core set (their effect on the tree is
+compared with the library after every request: the dump includes every parent field); the iterators and the behaviour
+through stale handles are decided by the direct oracle on the real library (parent / position / iterators / stale-handle
+probes after every request).
 -/
 import AutosarVerif.Lemmas.WorldOps
+import AutosarVerif.Lemmas.Reachable
 
 namespace AV.C03
 open AV.W AV.W.Items
@@ -54,5 +60,12 @@ theorem C03_op_comment (w : World) (x : Nat) (cm : Option Bytes) (hw : w.wf) : (
 def hdr (id : Nat) (p : PRef) : Hdr := { id := id, name := 0, ety := ⟨0, 0⟩, parent := p, attrs := [], files := [], comment := none }
 example : (Items.elem (hdr 1 (.elem 0)) (.elem (hdr 2 (.elem 1)) .nil .nil) .nil).wf (.elem 0) := by simp [Items.wf, hdr]
 example : ¬ (Items.elem (hdr 1 (.elem 0)) (.elem (hdr 2 (.elem 7)) .nil .nil) .nil).wf (.elem 0) := by simp [Items.wf, hdr]
+
+/-- invariant by induction over operations: every reachable state of the core operations is a well-formed tree -/
+theorem C03_every_reachable_state_is_a_tree (S : Spec) (V : Env) (rootAttrs : List (Nat × CDv)) (ops : List Op) :
+    (run S V rootAttrs ops).wf := (run_inv S V rootAttrs ops).1
+
+theorem C03_core_step_keeps_tree (S : Spec) (V : Env) (rootAttrs : List (Nat × CDv)) (w : World) (op : Op) (h : Inv w) :
+    Inv (applyOp S V rootAttrs w op).1 := applyOp_inv S V rootAttrs w op h
 
 end AV.C03
